@@ -29,12 +29,12 @@ RULE = ('seeded state points on analytic truth motions: |lat|<=80, speed bands <
         'error directions x 2 signs per point; both altitude modes; propagate_errors on evenly, unevenly and two-rate sampled trajectories (every interval then halved), constant and '
         'per-stamp sensor errors; non-trivial = every point (the existing test uses one trajectory, large errors, 12 % tolerance); '
         'distinct = generator parameters'
-        ' Round 4: before every evaluation the OTHER altitude mode evaluates the same trajectory object and one of its rows (argument purity, order independence); coarse-step class: steady turns of 4..11 deg/s, constant sensor errors, propagate_errors at 2 / 1 / 0.5 s steps against calibrated limits.')
+        ' Round 4: before every evaluation the OTHER altitude mode evaluates the same trajectory object and one of its rows (argument purity, order independence); coarse-step class: steady turns of 4..11 deg/s, constant sensor errors, propagate_errors at 2 / 1 / 0.5 s steps against calibrated limits. Round 6: points AT REST probed with finite-difference steps 0.5 m / 0.5 mm/s / 5e-8 rad (floors widened for stagnating position increments and accumulated attitude rounding).')
 ASSUMPTIONS = ['coarse-step class: absolute limits 16 / 8 / 4 % (2 / 1 / 0.5 s) on the velocity-error prediction of propagate_errors, calibrated on the unchanged tree for that workload (max 6.2 / 3.0 / 1.5 % over 48 runs)', 'neglected-term table N (per unit time): DR-DR v(1+tan)/R; DV-DR (0.06 + 2 Omega v + v^2 (1+tan^2)/R)/R plus g/R on its horizontal diagonal (Schuler coupling, absent from the model); DV-PHI (2 Omega + '
                'v(1+tan)/R) v; PHI-DR v(1+tan^2)/R^2; plus a velocity-independent baseline of 1 % of every included entry and 0.1 Omega g in DV-PHI; '
                'calibrated on the unchanged tree (max observed ratio of the residual to the bound recorded in the evidence) and frozen before the mutation runs',
                'finite-difference steps 1 km / 1 m/s / 1e-4 rad (1e-6 m is below the ulp of a longitude in degrees)']
-REQUIRED_OBS = ['propagate_coarse_checked', 'coarse_order_decided', 'both_modes_on_one_object', 'state_points', 'blocks_checked', 'sensor_blocks_checked', 'points_3d', 'points_2d', 'slow_points', 'fast_points',
+REQUIRED_OBS = ['rest_points_with_tiny_errors', 'propagate_coarse_checked', 'coarse_order_decided', 'both_modes_on_one_object', 'state_points', 'blocks_checked', 'sensor_blocks_checked', 'points_3d', 'points_2d', 'slow_points', 'fast_points',
                 'propagate_errors_checked', 'system_matrices_calls', 'propagate_uniform', 'propagate_uneven', 'propagate_two_rate']
 REQUIRED_CLASSES = {'all': ['3d-slow', '3d-fast', '2d-slow', '2d-fast', 'propagate']}
 R0 = 6.37e6
@@ -56,6 +56,10 @@ def cases(seed, tier):
     classes = ['3d-slow', '3d-fast', '2d-slow', '2d-fast']
     for i in range(n):
         out.append(dict(seed=int(seed) * 1000003 + i, cls=classes[i % 4], Delta=[0.1, 0.5, 1.0, 2.0][(i // 4) % 4], cost=1 + [0.1, 0.5, 1.0, 2.0][(i // 4) % 4]))
+    # Round 6: a vehicle AT REST probed with errors below 1 mm/s / 1e-7 rad (the regime of a stationary alignment; a "standstill" shortcut in
+    # the mechanisation - transport rate skipped below some speed - cuts the velocity -> tilt feedback that closes the Schuler loop)
+    for i in range(12 if tier == 'quick' else 200):
+        out.append(dict(seed=int(seed) * 1000003 + 70000 + i, cls=['3d-slow', '2d-slow'][i % 2], Delta=[1.0, 2.0][(i // 2) % 2], rest=True, cost=3))
     npp = 16 if tier == 'quick' else 300
     for i in range(npp):
         out.append(dict(seed=int(seed) * 1000003 + 60000 + i, cls='propagate', cost=4))
@@ -94,15 +98,21 @@ def blocks(n):
     return {'DR': slice(0, 2), 'DV': slice(2, 4), 'PHI': slice(4, 7)}
 
 
-def fd_floor(n, v, nsteps):
+def fd_floor(n, v, nsteps, scale=1.0):
     # rounding of lat / lon in degrees (~1.5e-9 m per step) random-walks over the steps of the run
     noise = np.array([1e-8 * np.sqrt(1 + nsteps / 100)] * 3 + [4e-12 * (1 + v)] * 3 + [4e-15] * 3)
-    steps = EP.STEPS3
+    if scale < 1:
+        # tiny errors at rest: a per-step position increment below half an ulp of the latitude / longitude in degrees (8e-10 m) is absorbed
+        # entirely (stagnation, not a random walk) - up to nsteps half-ulps are missing from a measured position response
+        noise[:3] += nsteps * 5e-10
+        # attitude rounding (eps per step, random walk over 200..800 steps: 1.2e-14 observed) no longer disappears under a 1e-4 rad step
+        noise[6:] = 4e-14
+    steps = EP.STEPS3 * scale
     if n == 7:
         noise, steps = noise[EP.IDX2], steps[EP.IDX2]
     fl = noise[:, None] / steps[None, :]
-    flg = noise[:, None] / EP.GYRO_STEP * np.ones((1, 3))
-    fla = noise[:, None] / EP.ACCEL_STEP * np.ones((1, 3))
+    flg = noise[:, None] / (EP.GYRO_STEP * scale) * np.ones((1, 3))
+    fla = noise[:, None] / (EP.ACCEL_STEP * scale) * np.ones((1, 3))
     return fl, flg, fla
 
 
@@ -113,6 +123,11 @@ def run_point(case, out, obs):
     slow = case['cls'].endswith('slow')
     Delta = case['Delta']
     m, ex = TM.random_motion(rng, Delta + 1, lat_range=(-80, 80), speed_max=20.0 if slow else 300.0, alt_range=(0, 20000), aggressive=0.6)
+    scale = 1.0
+    if case.get('rest'):
+        m, ex = TM.special_motion(rng, Delta + 1, 'rest')
+        scale = 5e-4                # steps 0.5 m, 0.5 mm/s, 5e-8 rad; sensor steps 5e-8 rad/s, 5e-6 m/s^2
+        obs['rest_points_with_tiny_errors'] = 1
     if not wa:
         # level flight: the 2-D mode models no vertical motion
         m.p['alt'] = [m.p['alt'][0], 0.0]
@@ -125,7 +140,7 @@ def run_point(case, out, obs):
         if abs(pva0[7]) > 80:
             return dict(skipped='pitch > 80')
         P = EP.Propagator(imu, wa)
-        S, Sg, Sa, nom = EP.sensitivity(P, pva0)
+        S, Sg, Sa, nom = EP.sensitivity(P, pva0, scale)
         # the other altitude mode looks at the same trajectory object first (and at one row of it as a Pva): neither call may leave a trace in
         # the object, and the matrices of this mode must not depend on the other having been asked before
         nom_before = nom.copy()
@@ -167,7 +182,7 @@ def run_point(case, out, obs):
     Ephi, Eg, Ea = E[:n, :n], E[:n, n:n + 3], E[:n, n + 3:]
     S, Sg, Sa = res[0.005]
     S2, Sg2, Sa2 = res[0.0025]
-    fl, flg, fla = fd_floor(n, v, int(round(Delta / 0.0025)))
+    fl, flg, fla = fd_floor(n, v, int(round(Delta / 0.0025)), scale)
     bound = K_MODEL * Ephi + K_TRUNC * (np.abs(S - S2) + np.abs(Phi - Phi_f)) + fl + 1e-7 * np.abs(S)
     resid = np.abs(S - Phi)
     bl = blocks(n)
